@@ -31,9 +31,10 @@ Theorem C05_bin_declared_sizes_rejected : forall e f dsz pc lc,
   lenN f < dsz + 4 * pc + 8 * lc + 32 -> BinFormat.from_bytes e f = Err ETooSmall.
 Proof. exact declared_sizes_rejected. Qed.
 
-(* anything accepted can be re-serialized without panicking, in both modes *)
-Theorem C05_bin_reserialize_no_panic : forall e f a m p,
-  wfb f -> BinFormat.from_bytes e f = Ok a -> BinFormat.serialize m a <> Panic p.
+(* anything accepted can be re-serialized without panicking, in both modes, whatever the sort key of label names
+   (Model/BinFormat.v name_key: the big-endian label order compares the DECODED names) *)
+Theorem C05_bin_reserialize_no_panic : forall kf e f a m p,
+  wfb f -> BinFormat.from_bytes e f = Ok a -> BinFormat.serialize_k kf m a <> Panic p.
 Proof. exact reserialize_no_panic. Qed.
 
 (* ---------------------------------------------------------------- GameCube/Wii pack *)
@@ -77,10 +78,10 @@ Theorem C05_text_from_archive_fuel_suffices : forall fmt a, TextFormat.from_arch
 Proof. exact TextTotal.text_from_archive_fuel_never_exhausted. Qed.
 (* anything accepted re-serializes (to Ok, so without a panic), either arithmetic mode, either endianness *)
 Theorem C05_text_reserialize_no_panic : forall fmt e f t, TextFormat.from_bytes fmt e f = Ok t ->
-  forall m e', (exists f', TextFormat.serialize m fmt e' t = Ok f') /\ forall k, TextFormat.serialize m fmt e' t <> Panic k.
+  forall kf m e', (exists f', TextFormat.serialize kf m fmt e' t = Ok f') /\ forall k, TextFormat.serialize kf m fmt e' t <> Panic k.
 Proof. exact TextArcTotal.text_accepted_reserializes. Qed.
 (* the writer is total on every text archive value *)
-Theorem C05_text_serialize_total : forall m fmt e t, exists f, TextFormat.serialize m fmt e t = Ok f.
+Theorem C05_text_serialize_total : forall kf m fmt e t, exists f, TextFormat.serialize kf m fmt e t = Ok f.
 Proof. exact TextTotal.text_serialize_ok. Qed.
 
 (* ---------------------------------------------------------------- 3DS arc (src/arc.rs) *)
